@@ -606,6 +606,9 @@ func ZZ_C01_interference() {
 			"a = \"日本\"; a[6] = \"x\"; a", "a = \"é\"; a[1]", "a = \"\\xff\\xfe\"; a[1]", "a = \"日本\"; for c in a { }", "a = \"日本\"; a[-1]", "a = \"日本\"; a[1] = \"\"; a",
 			"a = make([]chan int64, 1); close(a[0])", "a = make([]*int64, 1); a[0].x", "a = make([]*int64, 1); delete(a[0], 1)", "a = make([]*int64, 1); for x in a[0] { }", "a = make([]*int64, 1); len(a[0])", "a = make([]*int64, 1); a[0][0]",
 			"a = make([]*int64, 1); a[0][0] = 1", "a = make([]*int64, 1); a[0]()", "a = make([]*int64, 1); f = func(x...) { return x }; f(a[0]...)", "a = make([]*int64, 1); 1 in a[0]", "a = make([]*int64, 1); make([]int64, a[0])",
+			// a NaN key into a nil typed map (the assignment makes the map; the entry is never found again)
+			"n = 1e308 * 10; n = n - n; a = make([]map[float64]int64, 1); a[0][n]++", "n = 1e308 * 10; n = n - n; a = make([]map[interface]interface, 1); a[0][n] += 1",
+			"n = 1e308 * 10; n = n - n; a = make([]map[float64]int64, 1); b = [a[0][n]++]", "n = 1e308 * 10; n = n - n; a = make([]map[float64]int64, 1); a[0][n] = 1", "n = 1e308 * 10; n = n - n; m = make(map[float64]int64); m[n]++; m[n] += 1; m",
 			// types a bundled package table can offer (time.Ticker has a field `C <-chan Time`)
 			"make(RecvOnly)", "make(SendOnly)", "t = make(Tick); t.C", "make([]RecvOnly, 1)[0]", "make(chan RecvOnly, 1)", "c = make(RecvOnly); close(c)", "c = make(SendOnly); c <- 1", "t = new(Tick); t.C"}
 		oi := zz.Choose(len(ops))
